@@ -343,6 +343,41 @@ def run(prog, ctx):
         else:
             res.undecided += 1
 
+    # ---------------- C08.V counter arithmetic of the unsigned value types: halve = x >> 1, decay = trunc(x as f64 * d) saturating
+    n_v = 0
+    for g in sorted(prog.fns.values(), key=lambda x: x.id):
+        if g.promoted or "UnsignedCountMinValue" not in g.id or g.item_name not in ("halve", "decay"):
+            continue
+        ty = g.local_ty(1)
+        bits_ = {"u8": 8, "u16": 16, "u32": 32, "u64": 64}.get(ty)
+        if bits_ is None:
+            continue
+        e_ = C.ret_expr(prog, g)
+        if e_ is None:
+            continue
+        n_v += 1
+        mx = (1 << bits_) - 1
+        vals = sorted(set(v for v in (0, 1, 2, 3, 7, 255, 256, 65535, 65536, (1 << 31) + 5, (1 << 32) - 1, 1 << 32, (1 << 32) + 1, (1 << 40) + 12345, (1 << 53) + 2, mx - 1, mx) if v <= mx))
+        verdict, wit = None, ""
+        try:
+            verdict = True
+            for x in vals:
+                if g.item_name == "halve":
+                    got = formula.evaluate(e_, {"@prog": prog, "@ieee": True, "self": x})
+                    want = x >> 1
+                    if got != want:
+                        verdict, wit = False, "%s::halve(%d) = %r, expected %d" % (ty, x, got, want)
+                else:
+                    for d in (0.0, 0.3, 0.5, 0.999, 1.0):
+                        got = formula.evaluate(e_, {"@prog": prog, "@ieee": True, "self": x, g.local_name(2) or "decay": d})
+                        want = min(int(float(x) * d), mx)
+                        if got != want:
+                            verdict, wit = False, "%s::decay(%d, %r) = %r, expected %d" % (ty, x, d, got, want)
+        except (formula.Uneval, TypeError):
+            verdict = None
+        res.tri(verdict, "C08.V", "C08.V|%s|%s" % (ty, g.item_name), "counter arithmetic: %s" % wit, g.id)
+    res.rule("C08.V", n_v, 4, "halve / decay of the unsigned counter types")
+
     # ---------------- C08.S seeds
     mk = prog.fns.get("countmin::sketch::make_hash_seeds")
     if mk is not None:
